@@ -1297,7 +1297,11 @@ impl ASN1Value {
                 }
                 Ok(())
             }
-            (ASN1Type::Integer(i), ASN1Value::ElsewhereDeclaredValue { identifier, .. }) => {
+            (ASN1Type::Integer(i), ASN1Value::ElsewhereDeclaredValue { identifier, .. })
+                if i.distinguished_values.as_ref().is_some_and(|dist_vals| {
+                    dist_vals.iter().any(|d| &d.name == identifier)
+                }) =>
+            {
                 if let Some(value) = i.distinguished_values.as_ref().and_then(|dist_vals| {
                     dist_vals
                         .iter()
